@@ -1,9 +1,13 @@
 #!/venv/bin/python
-"""Regenerate gmsa/known_functions.json: the functions (module:qualified name) of the reference tree.  Functions that
-are not in this table are helpers introduced later; the loader splices their bodies into their callers (gmsa/inline.py)."""
+"""Regenerate gmsa/known_functions.json: the functions (module:qualified name) of the reference tree, each with a
+fingerprint (parameter names, identifiers used) that is only used to recognise a *renamed* function.  Functions that
+are not in this table and are not renames are helpers introduced later; the loader splices their bodies into their
+callers (gmsa/inline.py)."""
 import ast, json, os, sys
+sys.path.insert(0, os.path.dirname(os.path.dirname(os.path.abspath(__file__))))
+from gmsa.inline import fingerprint
 root = sys.argv[1] if len(sys.argv) > 1 else "/repo"
-out = []
+out = {}
 for dp, dn, fn in os.walk(os.path.join(root, "gaddlemaps")):
     dn[:] = sorted(d for d in dn if d not in ("__pycache__", "data"))
     for f in sorted(fn):
@@ -16,12 +20,15 @@ for dp, dn, fn in os.walk(os.path.join(root, "gaddlemaps")):
         tree = ast.parse(open(p).read())
         for st in tree.body:
             if isinstance(st, (ast.FunctionDef, ast.AsyncFunctionDef)):
-                out.append("%s:%s" % (rel, st.name))
+                out.setdefault("%s:%s" % (rel, st.name), fingerprint(st))
             elif isinstance(st, ast.ClassDef):
                 for s2 in st.body:
                     if isinstance(s2, (ast.FunctionDef, ast.AsyncFunctionDef)):
-                        out.append("%s:%s.%s" % (rel, st.name, s2.name))
-out = sorted(set(out))
-json.dump({"comment": "functions of the reference tree; see gmsa/inline.py", "functions": out},
-          open(os.path.join(os.path.dirname(os.path.dirname(os.path.abspath(__file__))), "gmsa", "known_functions.json"), "w"), indent=0)
+                        k = "%s:%s.%s" % (rel, st.name, s2.name)
+                        if k in out:       # property getter + setter share a name: merge
+                            out[k]["idents"] = sorted(set(out[k]["idents"]) | set(fingerprint(s2)["idents"]))
+                        else:
+                            out[k] = fingerprint(s2)
+json.dump({"comment": "functions of the reference tree; see gmsa/inline.py", "functions": sorted(out), "fingerprints": out},
+          open(os.path.join(os.path.dirname(os.path.dirname(os.path.abspath(__file__))), "gmsa", "known_functions.json"), "w"), indent=0, sort_keys=True)
 print(len(out), "functions")
